@@ -24,7 +24,7 @@ _LETROWS = [("MCQueryGen_letrows.cfg", None, {"cap": {"quick": 320, "thorough": 
 
 def _ALL(t, n):
     "random deep derivations over the union of the features (simulation, the run's seed)"
-    return [("MCQueryGen_all.cfg", {"num": 2500 if t == "quick" else 20000}, {"fnmd": True, "cap": {"quick": n, "thorough": 10 * n}})]
+    return [("MCQueryGen_all.cfg", {"num": 2500 if t == "quick" else 12000}, {"fnmd": True, "cap": {"quick": n, "thorough": 5 * n}})]
 
 
 def _NONNULL(cfg):
@@ -46,12 +46,12 @@ SPECS = {
         "C01",
         clauses=["Accepts", "RowsMatch", "SpuriousFault", "Compiles", "BookingFault"],
         profiles={"quick": [("MCQueryGen_core.cfg", None), ("MCQueryGen_tuples.cfg", None),
-                            ("MCQueryGen_let.cfg", None, {"cap": {"quick": 260, "thorough": 3000}}),
-                            ("MCQueryGen_moments.cfg", None, {"backend": "atlas", "cap": {"quick": 160, "thorough": 2000}})] + _ROWS("quick") + _IFFIRST("quick") + _LETROWS + _ALL("quick", 300),
+                            ("MCQueryGen_let.cfg", None, {"cap": {"quick": 260, "thorough": 1500}}),
+                            ("MCQueryGen_moments.cfg", None, {"backend": "atlas", "cap": {"quick": 160, "thorough": 1000}})] + _ROWS("quick") + _IFFIRST("quick") + _LETROWS + _ALL("quick", 300),
                   "thorough": [("MCQueryGen_core_t.cfg", None), ("MCQueryGen_tuples_t.cfg", None), ("MCQueryGen_fault.cfg", None),
-                               ("MCQueryGen_let_t.cfg", None, {"cap": {"quick": 260, "thorough": 3000}}),
-                               ("MCQueryGen_moments_t.cfg", None, {"backend": "atlas", "cap": {"quick": 160, "thorough": 2000}})] + _ROWS("thorough") + _IFFIRST("thorough") + _LETROWS + _ALL("thorough", 300)},
-        cap={"quick": 2800, "thorough": 27500},
+                               ("MCQueryGen_let_t.cfg", None, {"cap": {"quick": 260, "thorough": 1500}}),
+                               ("MCQueryGen_moments_t.cfg", None, {"backend": "atlas", "cap": {"quick": 160, "thorough": 1000}})] + _ROWS("thorough") + _IFFIRST("thorough") + _LETROWS + _ALL("thorough", 300)},
+        cap={"quick": 2800, "thorough": 9000},
     ),
     "C02": pcheck.PSpec(
         "C02",
@@ -61,7 +61,7 @@ SPECS = {
                   "thorough": [("MCQueryGen_core_t.cfg", None), ("MCQueryGen_schema_t.cfg", None), ("MCQueryGen_fault_t.cfg", None)] + _ROWS("thorough")
                               + [("MCQueryGen_userfn_et.cfg", None, {"fnmd": True, "cap": {"quick": 200, "thorough": 1500}})] + _ALL("thorough", 200)},
         events={"quick": 3, "thorough": 3},
-        cap={"quick": 1900, "thorough": 19000},
+        cap={"quick": 1900, "thorough": 7000},
         nontrivial="translated",
     ),
     "C03": pcheck.PSpec(
@@ -70,15 +70,15 @@ SPECS = {
         profiles={"quick": [("MCQueryGen_schema.cfg", None)] + _ROWS("quick") + _TREETYPES,
                   "thorough": [("MCQueryGen_schema_t.cfg", None)] + _ROWS("thorough") + _TREETYPES},
         events={"quick": 6, "thorough": 12},
-        cap={"quick": 1200, "thorough": 15000},
+        cap={"quick": 1200, "thorough": 6000},
     ),
     "C04": pcheck.PSpec(
         "C04",
         clauses=["FaultMissed", "SpuriousFault", "RowsMatch", "Accepts", "Compiles", "BookingFault"],
         profiles={"quick": [("MCQueryGen_fault.cfg", None), ("MCQueryGen_guard.cfg", None)] + _NONNULL("MCQueryGen_nonnull.cfg") + _IFFIRST("quick") + _ALL("quick", 300),
                   "thorough": [("MCQueryGen_fault_t.cfg", None), ("MCQueryGen_guard_t.cfg", None)] + _NONNULL("MCQueryGen_nonnull_t.cfg") + _IFFIRST("thorough") + _ALL("thorough", 300)},
-        events={"quick": 5, "thorough": 40},
-        cap={"quick": 2800, "thorough": 19000},
+        events={"quick": 5, "thorough": 16},
+        cap={"quick": 2800, "thorough": 7000},
         math=True,
     ),
     "C05": pcheck.PSpec(
@@ -101,7 +101,7 @@ SPECS = {
                         for b in pcheck.ALL_BACKENDS for v in ("both_za", "both_az")]
                   for t in ("quick", "thorough")},
         events={"quick": 8, "thorough": 24},
-        cap={"quick": 1000, "thorough": 20000},
+        cap={"quick": 1000, "thorough": 6000},
         event_cfg="EventGen_wide.cfg",
     ),
     "C10": pcheck.PSpec(
@@ -112,7 +112,7 @@ SPECS = {
                   "thorough": [("MCQueryGen_types_t.cfg", None, {"md10": True, "checkwarn": True}),
                                ("MCQueryGen_typesvec.cfg", None, {"md10": True, "checkwarn": True})]},
         events={"quick": 8, "thorough": 24},
-        cap={"quick": 1000, "thorough": 20000},
+        cap={"quick": 1000, "thorough": 6000},
     ),
     "C11": pcheck.PSpec(
         "C11",
@@ -124,7 +124,7 @@ SPECS = {
                                ("MCQueryGen_userfn_ft.cfg", None, {"fnmd": True, "cap": {"quick": 210, "thorough": 2500}}),
                                ("MCQueryGen_userfn_et.cfg", None, {"fnmd": True, "cap": {"quick": 300, "thorough": 3000}})]},
         events={"quick": 6, "thorough": 16},
-        cap={"quick": 1300, "thorough": 25000},
+        cap={"quick": 1300, "thorough": 7000},
     ),
     "C12": pcheck.PSpec(
         "C12",
@@ -134,7 +134,7 @@ SPECS = {
                   "thorough": [("MCQueryGen_math.cfg", None), ("MCQueryGen_math_ctx.cfg", None),
                                ("MCQueryGen_mathfirst.cfg", None, {"cap": {"quick": 240, "thorough": 1000}})]},
         events={"quick": 4, "thorough": 10},
-        cap={"quick": 1040, "thorough": 31000},
+        cap={"quick": 1040, "thorough": 8000},
         math=True,
         stratify=_first_math,
     ),
@@ -146,7 +146,7 @@ SPECS = {
                   "thorough": [("MCQueryGen_arithtable.cfg", None), ("MCQueryGen_arith.cfg", None),
                                ("MCQueryGen_arithif_t.cfg", None, {"cap": {"quick": 330, "thorough": 2000}})]},
         events={"quick": 8, "thorough": 16},
-        cap={"quick": 1330, "thorough": 22000},
+        cap={"quick": 1330, "thorough": 6000},
     ),
 }
 
